@@ -183,6 +183,8 @@ Definition qsize (q : qmsg) : nat := S (msizes (q_kids q)).
 
 Definition is_some {A} (o : option A) : bool := match o with Some _ => true | None => false end.
 
+Arguments msize : simpl never.
+Arguments msizes : simpl never.
 Arguments phold !p /.
 Arguments pd2 !p /.
 Arguments pd3 !p /.
@@ -846,6 +848,8 @@ Proof. reflexivity. Qed.
 Lemma msize_Msg d ks : msize (Msg d ks) = S (msizes ks).
 Proof. reflexivity. Qed.
 
+Opaque msize msizes.
+
 (* ---- InvD: conservation of work ----------------------------------------------------------------- *)
 
 Lemma InvD_step_proc W s k pr s' :
@@ -868,7 +872,7 @@ Proof.
       simpl;
       match goal with |- context[sumn psize (upd k ?x _)] => pose proof (U x) as Ux end;
       rewrite ?psize_after in Ux; simpl in Ux; rewrite ?sumn_app; simpl; unfold qsize in *; simpl in *;
-      try lia.
+      rewrite ?msize_Msg, ?msizes_cons in *; try lia.
   - (* nothing is lost unless the request is cancelled *)
     destruct (step_proc_frame _ _ _ _ H) as (_ & _ & _ & _ & _ & _ & Fc & _).
     rewrite Fc. intro Hc. specialize (Dl Hc).
@@ -883,23 +887,17 @@ Proof.
     pose proof (sumn_ge phold _ _ _ Hk) as G. simpl in G. lia.
   - (* a returned goroutine of a cyclical sender has seen its queue closed *)
     destruct (step_proc_frame _ _ _ _ H) as (_ & _ & _ & _ & Fcl & _ & _ & _ & _ & _ & pc' & Fp).
-    intros k' p a. rewrite Fp, nth_error_upd.
-    destruct ((k' =? k) && (k <? length (st_proc s))) eqn:E.
-    + intro X; inversion X; subst p; simpl. intros Hs Hpc. subst pc'.
-      unfold edge_closed. rewrite Fcl.
-      destruct pr as [o src pc]. simpl in *. subst src.
-      unfold step_proc in H. simpl in H.
-      destruct pc as [|m r|m r|[d ks] r|r|r|r| | | |]; simpl in H; step_cases H; simpl in *;
-        try match goal with X : upd _ _ _ = upd _ _ _ |- _ => idtac end;
-        try (assert (Hk' : k < length (st_proc s)) by (eapply nth_error_lt; eauto);
-             match goal with
-             | X : upd k ?x ?l = upd k ?y ?l |- _ =>
-               assert (Ex : Some x = Some y) by
-                 (rewrite <- (nth_error_upd_eq k x l Hk'), X, (nth_error_upd_eq k y l Hk'); reflexivity);
-               inversion Ex
-             end);
-        try (destruct r; discriminate); auto.
-      * destruct (q_kids q); discriminate.
-      * apply (Dp k _ a Hk eq_refl eq_refl).
-    + intros Hp Hs Hpc. unfold edge_closed. rewrite Fcl. apply (Dp k' p a Hp Hs Hpc).
+    intros k' p a Hp Hs Hpc. unfold edge_closed. rewrite Fcl.
+    destruct (Nat.eq_dec k' k) as [->|Hne].
+    + assert (Hkl : k < length (st_proc s)) by (eapply nth_error_lt; eauto).
+      clear Fp pc'. destruct pr as [o src pc]. unfold step_proc in H. simpl in H.
+      destruct pc as [|m r|m r|[d ks] r|r|r|r| | | |]; simpl in H; step_cases H; simpl in Hp;
+        rewrite nth_error_upd_eq in Hp by assumption; inversion Hp; subst p; simpl in *;
+        try discriminate; try (inversion Hs; subst);
+        repeat match type of Hpc with context[if ?c then _ else _] => destruct c end;
+        try discriminate;
+        try (match type of Hpc with after _ ?r = _ => destruct r; discriminate end).
+      * exact Heqb.
+    + rewrite Fp in Hp. rewrite nth_error_upd_neq in Hp by congruence.
+      apply (Dp k' p a Hp Hs Hpc).
 Qed.
